@@ -1,15 +1,33 @@
 (* Properties/C01.v — generation is total: the emission stage (everything after extraction) produces the complete
    crate for EVERY well-formed table; the one shape of D on which it does not — a schema that contains itself — is
-   refuted for every fuel (open finding). Extraction itself is tied to the implementation by the correspondence run,
-   which also evaluates the hypotheses below on every extracted table. *)
-From LN Require Import Spec.Wf Proofs.CrateP Proofs.EmitP Proofs.TotalP Proofs.FuelP.
+   refuted for every fuel (open finding). Extraction (with pruning) is total on every document satisfying the decidable
+   condition spec_ok. That the table extracted from a spec_ok document is hir_ok is NOT proved; the correspondence run
+   evaluates both predicates on every generated document and its extracted table and reports the counts. *)
+From LN Require Import Spec.Wf Spec.WfSpec Proofs.CrateP Proofs.EmitP Proofs.TotalP Proofs.FuelP Proofs.ExtractTotalP.
 Local Open Scope nat_scope.
+
+(* extraction and pruning never fail and never run out of fuel on a document whose references resolve within depth d,
+   whose operations have a success response and whose security requirements name declared schemes *)
+Theorem C01_extraction_total : forall d sp fuel, spec_ok d sp = true -> 1 <= fuel -> d <= fuel ->
+  exists h, extract_spec fuel sp = Ok h.
+Proof. exact extract_spec_total. Qed.
+Print Assumptions C01_extraction_total.
 
 (* no Err (= no panic), no fuel exhaustion (= no runaway recursion): a crate comes out *)
 Theorem C01_emission_total : forall d h cfg tp fuel, hir_ok d h cfg = true -> d <= fuel ->
   exists files, emit_crate fuel h cfg tp = Ok files.
 Proof. exact emit_crate_total. Qed.
 Print Assumptions C01_emission_total.
+
+(* the two halves joined: the whole pipeline answers with a crate *)
+Theorem C01_generate_total : forall d d' sp cfg tp fuel, spec_ok d sp = true -> 1 <= fuel -> d <= fuel -> d' <= fuel ->
+  (forall h, extract_spec fuel sp = Ok h -> hir_ok d' h (cli_config cfg) = true) ->
+  exists files, generate fuel sp cfg tp = Ok files.
+Proof.
+  intros d d' sp cfg tp fuel Hs H1 Hd Hd' Hh. destruct (extract_spec_total d sp fuel Hs H1 Hd) as [h Eh].
+  unfold generate. rewrite Eh. cbn [bind]. exact (emit_crate_total d' h (cli_config cfg) tp fuel (Hh h Eh) Hd').
+Qed.
+Print Assumptions C01_generate_total.
 
 (* and it is complete: model/mod.rs, one file per schema, one per operation, request/mod.rs, lib.rs, serde.rs when
    adapters are needed, one example per operation exactly when examples are enabled — in this order *)
@@ -55,10 +73,10 @@ Theorem C01_nonvacuous :
                servers := []; security := []; schemes := []; ext_docs := None |} in
   let cfg := {| c_name := lit "pet store"; c_derives := []; c_examples := true |} in
   let tp := {| tp_null_as_zero := []; tp_date_as_int := []; tp_int_as_str := [] |} in
-  exists h files, extract_spec 50 sp = Ok h /\ hir_ok 10 h (cli_config cfg) = true /\
+  exists h files, spec_ok 10 sp = true /\ extract_spec 50 sp = Ok h /\ hir_ok 10 h (cli_config cfg) = true /\
                   generate 50 sp cfg tp = Ok files /\ length files = 6%nat.
 Proof.
-  cbv zeta. eexists. eexists. split; [vm_compute; reflexivity|]. split; [vm_compute; reflexivity|].
+  cbv zeta. eexists. eexists. split; [vm_compute; reflexivity|]. split; [vm_compute; reflexivity|]. split; [vm_compute; reflexivity|].
   split; vm_compute; reflexivity.
 Qed.
 Print Assumptions C01_nonvacuous.
